@@ -3,7 +3,11 @@
 
    The controller model (Model/Load.v, part 2: load_application, flood_fill_aplx = a fold of fill_one,
    send_signal, count_cores_in_state, the struct reads) calls the integer expressions of
-   Generated/GenLoad.v, which are re-translated from the text of machine_controller.py on every run, and
+   Generated/GenLoad.v, which are re-translated from the text of machine_controller.py on every run (the
+   control flow the model mirrors by hand -- order of the packets of a fill, the retry loop, the count / per-core
+   switch, the error's constructor and message -- is compared with the source, fail closed, by
+   Generated/GenLoadShape.v, from which the model takes wait=True of the inner flood fill, the counted and the
+   "loaded" state and the start signal), and
    the region model of C12 (Model/Regions.v) for the core select list; so these theorems are re-checked
    against the current packet fields, loop tests and counters of the code.  The machine (Model/Load.v,
    part 1) is the documented semantics of the commands; a chip that misses a flood fill ignores every
@@ -136,6 +140,39 @@ Theorem C09_load_returns_iff_loaded :
     /\ Z.of_nat (length atts) <= Z.max 0 (a_tries a + 1)
     /\ Forall (att_ok bins (a_app a) am) atts.
 Proof. exact load_application_spec. Qed.
+
+(* The content of the error.  SpiNNakerLoadingError(unloaded) keeps the map as .app_map and its message lists
+   "(x, y, p)" for every core of every chip of every binary of that map ([error_cores]; the shape of __init__ /
+   __str__ is re-read from the source on every run, Generated/GenLoadShape.v): the cores the message lists
+   are exactly the requested cores that do not hold their binary, each listed once. *)
+Theorem C09_error_names_exactly_unloaded :
+  forall bins c w am a c' w' unl atts,
+    machine_wf (w_m w) -> ctrl_wf c (w_m w) -> map_wf am -> bins_ok (m_buffer (w_m w)) bins ->
+    0 <= a_app a < 256 ->
+    no_requested_waiting (w_m w) am ->
+    (a_count a = true -> no_other_waiting (w_m w) am (a_app a)) ->
+    load_application bins c w am a = Ok (c', w', LoadingError unl, atts) ->
+    NoDup (error_cores unl)
+    /\ forall c0, In c0 (error_cores unl) <->
+                  exists b, In (b, c0) (named am) /\ ~ holds bins (w_m w') (a_app a) STATE_WAIT b c0.
+Proof. exact load_error_names_unloaded. Qed.
+
+(* The bare entry point flood_fill_aplx(map, app_id, wait) ("unreliable" loading, no verification): besides
+   sending one well formed fill per entry that selects exactly the entry's cores (C09_flood_fill_map, composed
+   from C12's exactness theorem for compress_flood_fill_regions), its effect on the machine is: every named
+   core is as before (its chip missed the fill of its binary) or holds its binary under the app id, waiting
+   iff wait was asked, else running; no other core changes. *)
+Theorem C09_flood_fill_effect :
+  forall bins aid wait am c w c' w',
+    ctrl_wf c (w_m w) -> machine_wf (w_m w) -> bins_ok (m_buffer (w_m w)) bins -> 0 <= aid < 256 ->
+    NoDup (map snd (named am)) ->
+    flood_fill_aplx bins c w am aid wait = Ok (c', w') ->
+    (forall b c0, In (b, c0) (named am) ->
+       core_at (w_m w') c0 = core_at (w_m w) c0 \/
+       (core_at (w_m w) c0 <> None /\
+        holds bins (w_m w') aid (if wait then STATE_WAIT else STATE_RUN) b c0))
+    /\ (forall c0, ~ In c0 (map snd (named am)) -> core_at (w_m w') c0 = core_at (w_m w) c0).
+Proof. exact flood_fill_aplx_effect. Qed.
 
 (* use_count = False: the guard about other cores is not needed. *)
 Theorem C09_load_state_mode :
